@@ -164,6 +164,21 @@ def visit_rule(chk, db):
         n += 1
         chk.instance("VISIT")
         ok = cmp_packs <= get_packs
+        if not ok:
+            # the invoked branch may sit in a helper of the same header that receives the index sequence: a call that passes
+            # the function's own `index_sequence<Is...>` parameter hands the compared pack on; the helper's get<> uses count
+            seq_params = [p0["n"] for p0 in f["params"] if "index_sequence" in (p0.get("ty") or "") and any(
+                re.search(r"\b%s\b" % re.escape(c), p0.get("ty") or "") for c in cmp_packs)]
+            for x in astx.all_exprs(f):
+                if x.get("k") != "call" or not any(astx.strip_casts(a) is not None and astx.strip_casts(a).get("k") == "ref" and
+                                                     astx.strip_casts(a).get("n") in seq_params for a in x.get("a") or []):
+                    continue
+                hn = astx.callee(x)[0]
+                for g in db.funcs:
+                    if g["n"] == hn and g["file"] == f["file"] and g is not f and g.get("body") is not None and any(
+                            y.get("k") in ("ref", "mem") and y.get("n") in ("get", "unchecked_get", "index_v") and y.get("targs")
+                            for y in astx.all_exprs(g)):
+                        ok = True
         chk.obligation("VISIT", astx.sig(f), ok)
         if not ok:
             chk.violation("VISIT", astx.sig(f), "index-pack-mismatch", "%s: index() is compared with %s but the invoked branch uses get<%s>" % (
